@@ -1,4 +1,4 @@
-import Proofs.Store.NodeDB
+import Proofs.Store.MultiDisk
 /-!
 # C04 — Saved state is reproduced exactly after reopening from disk
 
@@ -141,6 +141,76 @@ theorem hash_deterministic (H : Bytes → Bytes) (t₁ t₂ : MTree) (h : t₁.r
         · cases hr; rfl
   rw [key t₁ r₁ h1, key t₂ r₂ h2, h]
   exact ⟨rfl, rfl⟩
+
+/-- **The whole multistore reopens exactly.**  For every legal block history on a fresh DB (any
+iteration orders): a new `rootmulti.Store` object on the resulting disk — `LoadLatestVersion` or
+`LoadVersion(v)` for any committed `v` — reports the commit id the live store reported when it
+committed that version, and holds in every substore exactly the tree that was saved then; any other
+version (`v ≠ 0`) fails to load. -/
+theorem multistore_reopen (H : Bytes → Bytes) (hH : HashOK H) (S : Tree → Prop) (hi : Inj H S)
+    (names : List RootMulti.Name) (hnd : names.Nodup)
+    (blocks : List (List RootMulti.Name × (RootMulti.Name → Option Tree)))
+    (hb : GoodBlocks S names (fun _ => []) 0 blocks) :
+    ∃ s0 s ids, openMS H (freshDisk names) names = some s0 ∧
+      runMS H s0 (blocks.map fun b => (b.1, fullBlock names b.2)) = some (s, ids) ∧ ids.length = blocks.length ∧
+      -- every committed version
+      (∀ (i : Nat) (c : CID), ids[i]? = some c →
+        ∃ m, loadMS H s.disk names ((i : Int) + 1) = some m ∧ m.lastCommitID = c ∧
+          ∀ n ∈ names, ∃ t, aget n m.stores = some t ∧ t.version = (i : Int) + 1 ∧
+            some t.root = histAt (histsAfter (fun _ => []) blocks n) ((i : Int) + 1)) ∧
+      -- the latest version
+      (blocks ≠ [] → ∃ m, openMS H s.disk names = some m ∧ m.lastCommitID = s.lastCommitID ∧
+        ∀ n ∈ names, ∃ t, aget n m.stores = some t ∧ t.version = blocks.length ∧
+          t.root = lastOf (histsAfter (fun _ => []) blocks n)) ∧
+      -- nothing else
+      (∀ v : Int, v ≠ 0 → ¬ (1 ≤ v ∧ v ≤ blocks.length) → loadMS H s.disk names v = none) := by
+  obtain ⟨s0, h0, g0⟩ := openMS_fresh_good (H := H) S names hnd
+  obtain ⟨s, ids, hrun, g, _, hids⟩ := runMS_ids hH hi blocks _ 0 s0 g0 hb
+  obtain ⟨_, ids', hrun', _, hlen⟩ := runMS_good hH hi blocks _ 0 s0 g0 hb
+  rw [hrun] at hrun'; cases hrun'
+  simp only [Nat.zero_add] at g
+  have gd := g.disk
+  have hl : ∀ n ∈ names, (histsAfter (fun _ => []) blocks n).length = blocks.length :=
+    fun n hn => by obtain ⟨_, _, _, _, h⟩ := g.tree n hn; exact h
+  refine ⟨s0, s, ids, h0, hrun, hlen, ?_, ?_, ?_⟩
+  · intro i c hic
+    have hi' : i < blocks.length := by
+      rw [← hlen]; exact (List.getElem?_eq_some_iff.mp hic).1
+    obtain ⟨ci, hci, hv, hload⟩ := loadMS_good hH gd ((i : Int) + 1) (by omega) (by omega)
+    have hid := hids i c hic
+    simp only [Int.natCast_zero, Int.zero_add] at hid
+    have hcs : s.disk.cinfos = s.cinfos := rfl
+    rw [hcs] at hci
+    rw [hci] at hid
+    simp only [Option.map_some, Option.some.injEq] at hid
+    refine ⟨_, hload, hid, ?_⟩
+    intro n hn
+    refine ⟨recovered (s.disk.storeDB n) ((i : Int) + 1) ((histAt (histsAfter (fun _ => []) blocks n) ((i : Int) + 1)).getD none), ?_, rfl, ?_⟩
+    · rw [aget_map_names (fun n => recovered (s.disk.storeDB n) ((i : Int) + 1) ((histAt (histsAfter (fun _ => []) blocks n) ((i : Int) + 1)).getD none)) names n, if_pos hn]
+    · simp only [recovered]
+      obtain ⟨r, hr⟩ := Option.isSome_iff_exists.mp ((histAt_some_iff (histsAfter (fun _ => []) blocks n) ((i : Int) + 1)).mpr ⟨by omega, by rw [hl n hn]; omega⟩)
+      rw [hr]; rfl
+  · intro hne
+    have hk : 1 ≤ blocks.length := by
+      cases blocks with
+      | nil => exact absurd rfl hne
+      | cons a l => simp
+    obtain ⟨ci, hci, hopen⟩ := openMS_good hH gd hk
+    refine ⟨_, hopen, ?_, ?_⟩
+    · rw [g.lcid]
+      have : ¬ blocks.length = 0 := by omega
+      have hcs : s.disk.cinfos = s.cinfos := rfl
+      rw [hcs] at hci
+      simp [this, hci]
+    · intro n hn
+      refine ⟨recovered (s.disk.storeDB n) blocks.length ((histAt (histsAfter (fun _ => []) blocks n) blocks.length).getD none), ?_, rfl, ?_⟩
+      · rw [aget_map_names (fun n => recovered (s.disk.storeDB n) blocks.length ((histAt (histsAfter (fun _ => []) blocks n) blocks.length).getD none)) names n, if_pos hn]
+      · simp only [recovered]
+        have hne' : histsAfter (fun _ => []) blocks n ≠ [] := by
+          intro e; have := hl n hn; rw [e] at this; simp at this; omega
+        rw [← hl n hn, histAt_last _ hne']; rfl
+  · intro v h0' hv
+    exact loadMS_none gd v h0' hv
 
 /-! ## Non-vacuity -/
 example : isInt64 (-9223372036854775808) ∧ isInt64 9223372036854775807 := by decide
